@@ -25,4 +25,25 @@ def run(chk):
     batcher.tokio_blocking(chk, P, "C08")
     batcher.send_rules(chk, P, "C08")
     batcher.worker_panics(chk, P, "C08")
+    if chk.tier == "thorough":
+        try:
+            P3 = mir.Program("K3")
+            chk.use_program(P3)
+
+            def no_tokio():
+                toks = [k for k in P3.bodies if k.startswith("emit_batcher::tokio::")]
+                if toks:
+                    return False, "the tokio module is compiled without the tokio feature", [], None
+                for fn in ("blocking_flush", "blocking_send"):
+                    b = P3.body("emit_batcher::sync::%s" % fn)
+                    for x in [b] + P3.closures_of(b):
+                        for c in x.calls(normal_only=True):
+                            if c.callee.get("name") in ("block_in_place",) or "tokio" in (c.callee.get("path") or ""):
+                                return False, "sync::%s uses tokio at %s" % (fn, c.loc), [], c.loc
+                return True, "", ["emit_batcher::sync::blocking_flush", "emit_batcher::sync::blocking_send"]
+            chk.ob("C08.K3.R5:sync-only-build", "without the tokio feature the blocking entry points are the thread-based ones", no_tokio)
+            batcher.nothing_under_lock(chk, P3, "C08.K3")
+            batcher.containment(chk, P3, "C08.K3")
+        except SystemExit as e:
+            chk.fail("C08.K3", "emit_batcher without tokio compiles", str(e))
     return chk
